@@ -16,7 +16,7 @@ from ..harness import rule
 from ..index import AnalysisError, text
 from ..models import RECV_LOOP, BASE_STUBS, mask_stub, mk_websocket
 from ..rulekit import Dim, box_hit, dim_of, isym, ivals, new_obj, path_text, stub_effect
-from ..values import C, FALSE, INF, NONE, TRUE, App, Ext, Ref, Sym, Tup, Value, template_text
+from ..values import C, FALSE, INF, NONE, TRUE, App, Cls, Ext, Ref, Sym, Tup, Value, template_text
 
 FMT = "_abnf:ABNF.format"
 OS_RANDOM = {"os.urandom", "secrets.token_bytes", "random.SystemRandom.randbytes"}
@@ -623,3 +623,69 @@ def r10(ctx):
     from .c12 import r6 as one_write_per_send
     one_write_per_send(ctx)
 
+
+
+@rule("R-C01-11", min_instances=3, title="what send_frame's write loop is told was accepted is what the transport accepted (0 and None included): WebSocket._send hands the count through unchanged")
+def r_sib_r_c01_11(ctx):
+    from .c12 import r7 as count_reaches_loop
+    count_reaches_loop(ctx)
+
+
+@rule("R-C01-12", min_instances=5, title="a frame's bytes depend on that frame alone: nothing on the format/send path is kept in class-level or module-level mutable state (no header cache shared between frames)")
+def r_sib_r_c01_12(ctx):
+    from .c12 import r9 as no_hidden_sharing
+    no_hidden_sharing(ctx)
+
+
+def _ref_frame(fin, rsv1, rsv2, rsv3, opcode, masked, key, data: bytes) -> bytes:
+    """RFC 6455 5.2, written independently of the code under analysis"""
+    import struct as _s
+    n = len(data)
+    b0 = fin << 7 | rsv1 << 6 | rsv2 << 5 | rsv3 << 4 | opcode
+    m = 0x80 if masked else 0
+    if n <= 125:
+        head = bytes([b0, m | n])
+    elif n <= 0xFFFF:
+        head = bytes([b0, m | 126]) + _s.pack("!H", n)
+    else:
+        head = bytes([b0, m | 127]) + _s.pack("!Q", n)
+    if masked:
+        return head + key + bytes(b ^ key[i % 4] for i, b in enumerate(data))
+    return head + data
+
+
+@rule("R-C01-13", min_instances=20, title="frames are formatted one by one: whatever was formatted before in the process, ABNF.format() of a frame equals the RFC encoding of that frame (folded on constant sequences of two frames that differ in one header field: FIN, RSV, opcode, mask, length class)")
+def r13(ctx):
+    idx = ctx.index
+
+    def arr(I, run, args, kwargs, node):
+        tc, init = I.resolve(run, args[0]), I.resolve(run, args[1])
+        if tc == C("B") and isinstance(init, C) and isinstance(init.v, (bytes, bytearray)):
+            return C(bytes(init.v))
+        raise AnalysisError(f"array.array({tc!r}, {init!r}) outside the modelled form")
+
+    key = bytes([0x37, 0xFA, 0x21, 0x3D])
+    I = Interp(idx, Config(stubs={"array.array": arr, "os.urandom": lambda I, run, a, k, n: C(key)}))
+    loc = idx.loc(idx.func("_abnf:ABNF.format").node)
+    base = dict(fin=1, rsv1=0, rsv2=0, rsv3=0, opcode=2, mask=1, n=5)
+    variants = [dict(base, fin=0), dict(base, opcode=0), dict(base, opcode=1), dict(base, opcode=9), dict(base, mask=0), dict(base, n=0), dict(base, n=125),
+                dict(base, n=126), dict(base, n=65536), dict(base, fin=0, opcode=0), dict(base, fin=0, opcode=0, n=126)]
+    pairs = [(base, v) for v in variants] + [(v, base) for v in variants] + [(dict(base, fin=0, opcode=0), dict(base, fin=1, opcode=0)), (dict(base, fin=1, opcode=0), dict(base, fin=0, opcode=0))]
+
+    def mk(run, f):
+        data = bytes((i * 37 + 11) % 256 for i in range(f["n"]))
+        fr = I.call(run, Cls("_abnf:ABNF"), [C(f["fin"]), C(f["rsv1"]), C(f["rsv2"]), C(f["rsv3"]), C(f["opcode"]), C(f["mask"]), C(data)], {}, None)
+        return I.call(run, I.getattr(run, fr, "format", None), [], {}, None)
+
+    for f1, f2 in pairs:
+        outs = I.explore(lambda run, f1=f1, f2=f2: Tup((mk(run, f1), mk(run, f2))))
+        ctx.paths += len(outs)
+        if len(outs) != 1 or outs[0].kind != "return" or not all(isinstance(x, C) for x in outs[0].value.items):
+            raise AnalysisError(f"format() of constant frames {f1}, {f2} does not fold: {[(o.kind, o.exc_class or o.note) for o in outs][:2]}")
+        got = tuple(x.v for x in outs[0].value.items)
+        want = tuple(_ref_frame(f["fin"], f["rsv1"], f["rsv2"], f["rsv3"], f["opcode"], f["mask"], key, bytes((i * 37 + 11) % 256 for i in range(f["n"]))) for f in (f1, f2))
+        okk = tuple(bytes(g) if isinstance(g, (bytes, bytearray)) else g for g in got) == want
+        diff = {k: (f1[k], f2[k]) for k in f1 if f1[k] != f2[k]}
+        ctx.ob(f"_abnf:ABNF.format:sequence:{f1}->{f2}", okk, "both frames equal their RFC encoding" if okk else
+               f"formatting {f1} and then {f2} (they differ in {diff}) gives header bytes {got[0][:4]!r:.40} / {got[1][:4]!r:.40}; the RFC encodings start {want[0][:4]!r} / {want[1][:4]!r}: "
+               f"a frame is written with header fields of an earlier frame", loc)
